@@ -61,7 +61,10 @@ RULE = ("per decoder: every byte string up to length k over the decoder's dispat
         "(length bytes, header counts, compression pointers incl. self / forward / cyclic, truncation, "
         "nesting depth); discovery: 1..4 well-formed devices x one hostile host (garbage datagrams, pointer "
         "loops, TXT values on which handlers / device_info / service_info raise) x multicast and unicast "
-        "scanner; ~150 well-formed DNS messages with hostile record CONTENT (PTR/SRV targets and owners that are not "
+        "scanner; a hostile host at its own address that copies a good device's identifiers / names and answers first; "
+        "HTTP messages with every Content-Length value from -(size+8) to +6, huge and non-numeric ones through all three "
+        "HTTP receive loops; RAOP control datagrams (type x sequence numbers around the 2^16 wrap x counts up to 65535) "
+        "and timing datagrams; ~150 well-formed DNS messages with hostile record CONTENT (PTR/SRV targets and owners that are not "
         "instance/host/type names, ports 0/65535, TXT without '=', empty / 1- / 2-label names, records owned by the bare "
         "type, mismatched record types, instance names the handlers split) from a host that answers every unicast query; "
         "every TXT key read by a protocol module x near-match strings of every extracted regex (in a child "
@@ -1439,6 +1442,24 @@ def content_payloads():
     return [("content:" + label, [("wire", recs)]) for label, recs in out]
 
 
+def clone_payloads(devs):
+    """A hostile host at its OWN address and host name that re-announces a well-formed device's publicly broadcast
+    identity: the same instance names, TXT records (deviceid, UniqueIdentifier, rpMRtID, …) and ports.  Its
+    datagrams arrive first ("-first") or last.  The victim must still be found AND returned by `pyatv.scan`."""
+    from harness import c12
+    out = []
+    for label, victim, services in (("all-first", devs[0], None), ("one-service-first", devs[-1], 1),
+                                    ("all-last", devs[len(devs) // 2], None)):
+        evil = dict(victim, addr=BAD_ADDR, host=BAD_ADDR, linklocal=False, sleeping=False)
+        recs = []
+        for svc in victim["services"][:services]:
+            for r in c12.svc_records(evil, svc):
+                if r not in recs:
+                    recs.append(r)
+        out.append(("clone-identity-" + label, [("recs", recs)]))
+    return out
+
+
 def good_devices(rng, n):
     from harness import c12
     devs = []
@@ -1497,13 +1518,17 @@ def build_case(rng, mode, devs, payload):
                 d["raw"] = pack_content(j if mode == "u" else 50 + j, body, mode).hex()
                 d["content"] = True          # decodes fine: outside the model's garbage = empty datagram reading
             bad.append(d)
+        first = payload[0].endswith("-first")
+        last = payload[0].endswith("-last")
         if mode == "m":
-            for d in bad:
-                dgrams.insert(rng.randint(0, len(dgrams)), d)
+            for k, d in enumerate(bad):
+                dgrams.insert(k if first else len(dgrams) if last else rng.randint(0, len(dgrams)), d)
         else:
             dgrams = dgrams + bad
-            if rng.chance(0.5):
+            if first or (not last and rng.chance(0.5)):
                 dgrams = bad + dgrams[:-len(bad)]
+            if first:
+                hosts = [BAD_ADDR] + [h for h in hosts if h != BAD_ADDR]      # results follow the order of `hosts`
     base = {"mode": mode, "protoset": None, "hosts": hosts, "enc": rng.choice(["r", "c"]), "absent": [], "consistent": True}
     return dict(base, dgrams=dgrams), dict(base, dgrams=good, hosts=[h for h in hosts if h != BAD_ADDR])
 
@@ -1591,7 +1616,7 @@ def run_discovery(ctx, child, strings, culprits=()):
                     mine = [c for i, c in enumerate(contents) if ndev == (1 + (i + rep) % 4 if mode == "u" else 2 + (i + rep) % 2)]
                 else:
                     mine = [c for i, c in enumerate(contents) if rep == 0 and (ndev == 2 + i % 2 if mode == "u" else ndev == 2 and i % 3 == 0)]
-                for payload in payloads + mine:
+                for payload in payloads + mine + clone_payloads(devs):
                     if payload[0].startswith("txt-string") and (ndev + rep) % 2 and not ctx.thorough:
                         continue
                     if stuck >= 3:
